@@ -56,6 +56,14 @@ class DatasetV:
             raise PyRaise(ExcVal("AttributeError", (f"Dataset has no element {name}",)))
         return NotImplemented
 
+    def sym_method(self, I, name, args, kw):
+        if name == "get":
+            for k, v in self.elems:
+                if k == args[0]:
+                    return v
+            return args[1] if len(args) > 1 else kw.get("default")
+        return NotImplemented
+
     def sym_setattr(self, I, name, val):
         self.elems = [(k, v) for k, v in self.elems if k != name] + [(name, val)]
 
